@@ -22,6 +22,10 @@ CHECKS = {
          "No reference lexer involved: positions and values are re-derived from the input bytes. Generated Go lexers get the same oracle inside the C05 check.",
          "Trusted: the 20-line position oracle (LineCol). Only successful lexing is judged.",
          "DESIGN.md 3.2.5, 4 C04"),
+ "C05": ("translation check: Go source emitted by `participle gen lexer` is compiled and run against lexer.New(rules) on the same inputs; a PEG model of possessive matching run next to Go's regexp decides the documented tolerance",
+         "Differential runtime comparison of generated vs runtime lexer (symbols, tokens, positions, errors) over generated rule maps of the documented supported class; generator failures and non-compiling output are violations; non-termination needs model prediction AND an observed non-return.",
+         "Trusted: Go's regexp/syntax.Simplify (shared with the generator), the 150-line PEG interpreter (lexgen/peg.go).",
+         "DESIGN.md 3.2.4, 4 C05"),
  "C06": ("panic / watchdog / Trace-depth monitors plus an error well-formedness oracle over generated grammars and the repository's example grammars on arbitrary, mutated and synthesised inputs",
          "Totality and error-object invariants checked on every call; recursion depth measured through the Trace option on flat and nested input families.",
          "Trusted: Parser.Lex as the source of the token at an error position; Trace does not change results (C15). User-code examples only get the panic-free/AST-nil rules.",
@@ -79,7 +83,7 @@ CHECKS = {
          "Trusted: reflect.StructOf + Union[any] as a faithful route into Build's parseType; named/recursive/embedded types reach Build through the compiled programs of the other checks.",
          "DESIGN.md 4 C19"),
 }
-PENDING = {"C05": "check under construction in this revision (generated-lexer differential check, DESIGN.md 4 C05); not claimed until it runs silent on the unchanged tree"}
+PENDING = {}
 def load_pending():
     ids = [json.loads(l)["id"] for l in open(os.path.join(ROOT, "properties.jsonl"))]
     return [i for i in ids if i not in CHECKS]
